@@ -5,7 +5,8 @@ Second tie (checked on every run): translate/continuous_skeleton.py regenerates 
 (every method of Continue / Continuous and the Nextline call sites as statement programs) from
 nextline/continuous.py + nextline/main.py; coq/theories/Life/ContTie.v interprets the programs and
 proves, for all environments, that they compute the Continuous functions of Life/Model.v
-(`C16_tie_*` in Props/C16.v)."""
+(`C16_tie_*` in Props/C16.v); coq/theories/Life/ContSys.v: a task-pool system over that interpreter, flag
+invariant for all schedules (`C16_tie_sys_*`)."""
 from . import _life
 
 PROP_FILES = ['Props/C16.v']
@@ -14,8 +15,15 @@ TRUSTED_BASE = _life.TRUSTED_BASE + [
     'translate/continuous_skeleton.py (ast -> the statement AST of Life/ContSyntax.v; fail-closed) and the semantics '
     'Life/ContTie.v gives to that AST: Python try/except/finally propagation, asynccontextmanager (body at the yield, '
     'exception thrown in), AsyncExitStack with try/finally-shaped context managers, PubSubItem.publish raising once '
-    'closed; a Continue object is identified, as in the model, by (requesting task, _run_started); the ContextVar is '
-    'modelled as a per-context variable inherited by tasks created at an await',
+    'closed; pluggy unregister raising AssertionError for an absent plugin; a Continue object is identified, as in the '
+    'model, by (requesting task, _run_started); the ContextVar is modelled as a per-context variable inherited by tasks '
+    'created at an await',
+    'C16 tie, not modelled: publish/aclose and calls of translated methods are atomic (no cancellation delivered inside: '
+    'PubSubItem.publish never suspends, a fact of utils/pubsub/item.py covered by C08); pluggy register raising for a '
+    'duplicate object; ContextVar.reset raising for a foreign token; Life/Model.v has no cancel label, so the '
+    'cancellation branch (XBaseOnly) of C16_tie_requested_all_env and of the whole-history system Life/ContSys.v is tied '
+    'to no model transition; ContSys.v quantifies over ALL schedules of its steps and does not know which steps the '
+    'lifecycle lock / state machine allow (that is Life/Model.v + co-simulation)',
 ]
 ASSUMPTIONS = _life.ASSUMPTIONS
 correspond, search, replay = _life.make('C16')
